@@ -168,15 +168,16 @@ def run(ctx):
         span_terms, span_meta = [span_terms[i] for i in idx], [span_meta[i] for i in idx]
     ctx.extra["span_cases"] = len(span_terms)
     ctx.extra["extra_comments_gap_cases"] = len(gap_terms)
-    mism, err = coq_eval_mismatches("cases_C23_span", HEADER, span_terms, "span_chk", shard_size=3000)
+    allterms = [("span", "(CSpan %s)" % t, m) for t, m in zip(span_terms, span_meta)] + \
+               [("gap", "(CGapX %s)" % t, m) for t, m in zip(gap_terms, gap_meta)]
+    mism, err = coq_eval_mismatches("cases_C23", HEADER, [t for _, t, _ in allterms], "c23_chk", shard_size=700)
     if err:
         raise RuntimeError(err)
     for i in mism:
-        c, loc = span_meta[i]
-        ctx.corr_break("make-span", {"source_hex": c["text"]}, {"loc": loc, "term": span_terms[i]})
-    mism, err = coq_eval_mismatches("cases_C23_gap", HEADER, gap_terms, "go_chk", shard_size=600)
-    if err:
-        raise RuntimeError(err)
-    for i in mism:
-        c, k = gap_meta[i]
-        ctx.corr_break("extra-comments-attribution", {"source_hex": c["text"], "gap_before_token": k}, {"term": gap_terms[i][:600]})
+        kind, t, m = allterms[i]
+        if kind == "span":
+            c, loc = m
+            ctx.corr_break("make-span", {"source_hex": c["text"]}, {"loc": loc, "term": t})
+        else:
+            c, k = m
+            ctx.corr_break("extra-comments-attribution", {"source_hex": c["text"], "gap_before_token": k}, {"term": t[:600]})
